@@ -5,6 +5,9 @@ import sys
 from ..world import tie_check
 from ..leangen import GenFile
 
+STATIC = [('NdeVerif.Proofs.C10', 'NdeVerif.C10', ['getParam_congr', 'getParam_named', 'getParam_unnamed', 'getParam_negative_is_column', 'bundleIVP_value', 'bundleIVP_value_n',
+                                                   'bundleIVP_deriv', 'bundleBVP_left', 'bundleBVP_right'])]
+
 PID = 'C10'
 NTH = 4  # extra input columns
 
@@ -19,7 +22,7 @@ def configs(names):
 
 
 def cfg_name(prefix, lk):
-    return prefix + ''.join(f'_{k.replace("_", "")}{v}' for k, v in sorted(lk.items())) if lk else prefix + '_none'
+    return prefix + ''.join(f'_{k.replace("_", "")}{str(v).replace("-", "m")}' for k, v in sorted(lk.items())) if lk else prefix + '_none'
 
 
 def all_cases():
@@ -32,6 +35,8 @@ def all_cases():
         if 't_0' in lk and lk.get('t_1') == lk['t_0']:
             continue        # t_0 and t_1 read from the same column: t_0 = t_1 in every row, outside the condition's domain
         cases.append(('bvp', lk))
+    # a few tables with negative indices (the enumeration above is over the non-negative ones)
+    cases += [('ivp_d', {'u_0': -1}), ('bvp', {'t_1': -1, 'u_1': -2}), ('ivp_n', {'t_0': -4, 'u_0_prime': -1}), ('bvp', {'t_0': -3, 'u_0': 1, 'u_1': -1})]
     return cases
 
 
@@ -62,7 +67,7 @@ def scenario(kind, lk):
 
 
 def generate(seeds=(1, 2, 3), tier='quick'):
-    g = GenFile(PID)
+    g = GenFile(PID, imports=['NdeVerif.Proofs.C10'])
     stats = {}
     cases = all_cases()
     if tier == 'quick':
@@ -74,18 +79,78 @@ def generate(seeds=(1, 2, 3), tier='quick'):
                 ('bvp', {'t_1': 0}), ('ivp_d', {'t_0': 3}),
                 # names sharing a column
                 ('bvp', {'u_0': 0, 'u_1': 0}), ('ivp_n', {'t_0': 1, 'u_0': 1, 'u_0_prime': 1}), ('bvp', {'t_0': 2, 'u_0': 2, 't_1': 3, 'u_1': 3}),
-                ('ivp_d', {'t_0': 0, 'u_0': 0}), ('ivp_n', {'u_0': 2, 'u_0_prime': 2})]
+                ('ivp_d', {'t_0': 0, 'u_0': 0}), ('ivp_n', {'u_0': 2, 'u_0_prime': 2}),
+                # negative indices (Python indexing: -1 is the last column)
+                ('ivp_d', {'u_0': -1}), ('bvp', {'t_1': -1, 'u_1': -2}), ('ivp_n', {'t_0': -4, 'u_0_prime': -1})]
         cases = must + [c for c in picked if c not in must]
     stats['_space'] = dict(replays=0, total_configurations=len(all_cases()), traced=len(cases))
     # thorough: the enumeration is split over several modules (built in parallel by lake); quick: one module
     CH = 48
     chunks = [cases[i:i + CH] for i in range(0, len(cases), CH)] if tier != 'quick' else [cases]
     for ci, chunk in enumerate(chunks):
-        gc = g if ci == 0 else GenFile(f'{PID}p{ci}')
+        gc = g if ci == 0 else GenFile(f'{PID}p{ci}', imports=['NdeVerif.Proofs.C10'])
         if ci:
             g.parts.append(gc)
         _emit_cases(gc, chunk, stats, seeds)
     return g, stats
+
+
+CTOR_FN = ('(fun n => if n = "t_0" then c_t0 else if n = "u_0" then c_u0 else if n = "u_0_prime" then c_up else '
+           'if n = "t_1" then c_t1 else if n = "u_1" then c_u1 else 0)')
+
+
+def _model_tie(g, kind, lk, name, tree, vars_, rv, row, V):
+    """`{name}_is_model`: the traced code equals the hand model of Proofs/C10.lean (getParam + reference form) for this table"""
+    from ..leangen import Obligation
+    from ..calc import Calc, norm_inv
+    from .. import ex as X
+    one = ('nat', 1)
+    t = V('t')
+    N = ('app', 0, (0,) * (1 + NTH), tuple(V(v) for v in ['t'] + [f'th{i}' for i in range(NTH)]))
+    names = {'ivp_d': ['t_0', 'u_0'], 'ivp_n': ['t_0', 'u_0', 'u_0_prime'], 'bvp': ['t_0', 'u_0', 't_1', 'u_1']}[kind]
+    ctor = {'t_0': 'c_t0', 'u_0': 'c_u0', 'u_0_prime': 'c_up', 't_1': 'c_t1', 'u_1': 'c_u1'}
+    res = {n: row(n, ctor[n]) for n in names}
+    P = {n: V(res[n]) for n in names}
+    ex_ = lambda a: ('un', 'exp', a)
+    sub_ = lambda a, b: ('add', a, ('neg', b))
+    if kind == 'ivp_d':
+        ref = ('add', P['u_0'], ('mul', sub_(one, ex_(('add', ('neg', t), P['t_0']))), N))
+        call = f"NdeVerif.C10.ivpD {res['t_0']} {res['u_0']}"
+    elif kind == 'ivp_n':
+        ref = ('add', ('add', P['u_0'], ('mul', sub_(t, P['t_0']), P['u_0_prime'])),
+               ('mul', ('pow', sub_(one, ex_(('add', ('neg', t), P['t_0']))), 2), N))
+        call = f"NdeVerif.C10.ivpN {res['t_0']} {res['u_0']} {res['u_0_prime']}"
+    else:
+        r = ('mul', sub_(t, P['t_0']), ('inv', sub_(P['t_1'], P['t_0'])))
+        ref = ('add', ('add', ('mul', P['u_0'], sub_(one, r)), ('mul', P['u_1'], r)), ('mul', sub_(one, ex_(('mul', sub_(one, r), r))), N))
+        call = f"NdeVerif.C10.bvp {res['t_0']} {res['u_0']} {res['t_1']} {res['u_1']}"
+    hy = [('h01', f"{res['t_0']} ≠ {res['t_1']}")] if kind == 'bvp' else []
+    ok = g.thm_eq(f'{name}_ref', rv, rv, name, tree, ref, hyps=hy, what=f'{name}: traced code = reference form with the resolved parameters')
+    g.obligations = [o for o in g.obligations if o.name != f'{name}_ref']
+    calc = Calc(rv)
+    _, ntext = calc.poly(norm_inv(X.resolve(N)))
+    lookup = '[' + ', '.join(f'("{k}", {v})' for k, v in lk.items()) + ']'
+    thetas = '[' + ', '.join(f'th{i}' for i in range(NTH)) + ']'
+    gp = [f'NdeVerif.C10.getParam {lookup} {CTOR_FN} {thetas} "{n}" = some {res[n]}' for n in names]
+    gp_tac = 'by simp [NdeVerif.C10.getParam, NdeVerif.C10.pyGet, List.lookup]'
+    binders = '(I : Interp) (' + ' '.join(rv) + ' : ℝ) ' + ' '.join(f'({h} : {t_})' for h, t_ in hy)
+    if 'c_up' not in rv:
+        binders += ' (c_up : ℝ)'
+    for extra in ('c_t1', 'c_u1'):
+        if extra not in rv:
+            binders += f' ({extra} : ℝ)'
+    env = '[' + ', '.join(rv) + ']'
+    stmt = ' ∧ '.join(gp) + f' ∧ Ex.eval I (env {env}) {name} = {call} {ntext} t'
+    args = ' '.join(rv + [h for h, _ in hy])
+    lines = [f'theorem {name}_is_model {binders} :\n    {stmt} := by',
+             '  refine ⟨' + ', '.join([gp_tac] * len(gp)) + ', ?_⟩',
+             f'  rw [{name}_ref I {args}]',
+             '  simp only [NdeVerif.C10.ivpD, NdeVerif.C10.ivpN, NdeVerif.C10.bvp, div_eq_mul_inv, sub_eq_add_neg]',
+             '  try ring']
+    g.raw('\n'.join(lines) + '\n', [Obligation(f'{name}_is_model', 'model', stmt,
+          f'{kind} with lookup {lk}: _get_parameter resolves every parameter as the hand model getParam does, and the traced parameterisation is the '
+          'reference form of Proofs/C10.lean (whose theorems hold for every table and any number of columns)')])
+    return ok
 
 
 def _emit_cases(g, cases, stats, seeds):
@@ -99,7 +164,7 @@ def _emit_cases(g, cases, stats, seeds):
         rv = list(vars_)
 
         def row(pname, ctor):
-            return f'th{lk[pname]}' if pname in lk else ctor
+            return f'th{lk[pname] % NTH}' if pname in lk else ctor
 
         def V(n):
             return ('var', vars_.index(n))
@@ -119,6 +184,7 @@ def _emit_cases(g, cases, stats, seeds):
                      what=f'BundleDirichletBVP lookup {lk}: u(t0_row) = u0_row ({t0r} -> {u0r})')
             g.thm_eq(f'{name}_right', rv[1:], [t1r] + rv[1:], name, tree, V(u1r), hyps=hy,
                      what=f'BundleDirichletBVP lookup {lk}: u(t1_row) = u1_row ({t1r} -> {u1r})')
+        _model_tie(g, kind, lk, name, tree, vars_, rv, row, V)
 
 
 ASSUMPTIONS = [
@@ -157,7 +223,7 @@ def search(seed, tier):
                                     bundle_param_lookup={'t_1': 0})
 
         def rowv(p):
-            return th[lk[p]].detach().clone() if p in lk else torch.full((n, 1), float(c[p]))
+            return th[lk[p]].detach().clone() if p in lk else torch.full((n, 1), float(c[p]))      # th[-1] is the last column
         reqs = [('t_0', 'u_0', 'v')]
         if kind == 'ivp_n':
             reqs.append(('t_0', 'u_0_prime', 'd'))
@@ -180,6 +246,45 @@ def search(seed, tier):
         except ValueError:
             pass
     return found
+
+
+def runtime_checks():
+    """exact observations on the real code, every run: negative column indices, and a network of lower precision than the samples
+    (the parameters routed from the columns keep the samples' precision, so the condition stays exact at t_0 / t_1)"""
+    import torch
+    from neurodiffeq.conditions import BundleIVP, BundleDirichletBVP
+    from neurodiffeq.neurodiffeq import diff
+    from neurodiffeq.networks import FCNN
+    bad = []
+    torch.manual_seed(3)
+    n = 5
+    col = lambda: torch.rand(n, 1, dtype=torch.float64) * 2 - 1
+    th = [col() for _ in range(3)]
+    # negative indices
+    net = FCNN(4, 1, hidden_units=(6,))
+    c = BundleIVP(t_0=0.3, u_0=1.9, bundle_param_lookup={'u_0': -1})
+    got = c.enforce(net, torch.full((n, 1), 0.3), *th).detach()
+    if not torch.allclose(got, th[-1], rtol=0, atol=1e-14):
+        bad.append(dict(case='negative index in the lookup table', lookup={'u_0': -1}, violated='u(t_0) is not the last column',
+                        got=got.reshape(-1).tolist(), want=th[-1].reshape(-1).tolist()))
+    c = BundleDirichletBVP(t_0=0.0, u_0=0.5, t_1=1.0, u_1=2.0, bundle_param_lookup={'u_1': -2, 't_1': -1})
+    t1 = th[-1] + 3.0
+    got = c.enforce(net, t1.clone(), th[0], th[1], t1).detach()
+    if not torch.allclose(got, th[1], rtol=0, atol=1e-13):
+        bad.append(dict(case='negative index in the lookup table', lookup={'u_1': -2, 't_1': -1}, violated='u(t_1) is not column -2',
+                        got=got.reshape(-1).tolist(), want=th[1].reshape(-1).tolist()))
+    # a float32 network on float64 samples
+    net32 = FCNN(4, 1, hidden_units=(6,)).float()
+    wrap = lambda x: net32(x.float())
+    for lk, ctor in (({'t_0': 0, 'u_0': 1}, dict(t_0=0.1, u_0=0.7)), ({'u_0': 2}, dict(t_0=0.37, u_0=0.7))):
+        c = BundleIVP(bundle_param_lookup=lk, **ctor)
+        t0 = th[lk['t_0']] if 't_0' in lk else torch.full((n, 1), ctor['t_0'], dtype=torch.float64)
+        u0 = th[lk['u_0']]
+        got = c.enforce(wrap, t0.clone(), *th).detach()
+        if got.dtype != torch.float64 or not torch.allclose(got, u0, rtol=0, atol=1e-14):
+            bad.append(dict(case='float32 network on float64 samples', lookup=lk, violated='u(t_0) is not exactly the row\'s u_0',
+                            max_abs_error=float((got.double() - u0).abs().max()), dtype=str(got.dtype)))
+    return bad
 
 
 def check(tier, seed):
